@@ -1,4 +1,5 @@
 import PycModel.Proofs.FullExpr
+import PycModel.Proofs.DeclParse
 import PycModel.Proofs.SwitchRefine
 /-!
 # Statements nest exactly as the C grammar says (C99 6.8)
@@ -11,7 +12,7 @@ bodies are the single following statement, block items keep their order - and co
 the statement's tokens.  Braces are handled by the token view (`lexScopes`).
 -/
 namespace PycModel.StmtSkel
-open PycModel PycModel.View PycModel.OperandId PycModel.FullExpr
+open PycModel PycModel.View PycModel.OperandId PycModel.FullExpr PycModel.DeclParse
 
 variable {env : Env}
 
@@ -43,11 +44,13 @@ inductive S where
   | default_ (s : S)
   | switch_ (c : X) (b : S)
   | for_ (i c n : Option X) (b : S)
+  | forD (dc : Dcl) (c n : Option X) (b : S)
   | goto_ (x : String)
   | label (x : String) (s : S)
 inductive SL where
   | nil
   | cons (s : S) (rest : SL)
+  | consD (dc : Dcl) (rest : SL)
 end
 
 mutual
@@ -67,11 +70,13 @@ def S.ntoks : S → Nat
   | .default_ s => 2 + s.ntoks
   | .switch_ c b => 2 + c.ntoks + 1 + b.ntoks
   | .for_ i c n b => 2 + ont i + 1 + ont c + 1 + ont n + 1 + b.ntoks
+  | .forD dc c n b => 2 + dc.ntoks + ont c + 1 + ont n + 1 + b.ntoks
   | .goto_ _ => 3
   | .label _ s => 2 + s.ntoks
 def SL.ntoks : SL → Nat
   | .nil => 0
   | .cons s r => s.ntoks + r.ntoks
+  | .consD dc r => dc.ntoks + r.ntoks
 end
 
 mutual
@@ -92,11 +97,14 @@ def S.flat : S → List Tk
   | .switch_ c b => ("SWITCH", "switch") :: ("LPAREN", "(") :: (c.flat ++ ("RPAREN", ")") :: b.flat)
   | .for_ i c n b => ("FOR", "for") :: ("LPAREN", "(") :: (oflat i ++ ("SEMI", ";") :: (oflat c ++ ("SEMI", ";") ::
       (oflat n ++ ("RPAREN", ")") :: b.flat)))
+  | .forD dc c n b => ("FOR", "for") :: ("LPAREN", "(") :: (dc.flat ++ (oflat c ++ ("SEMI", ";") ::
+      (oflat n ++ ("RPAREN", ")") :: b.flat)))
   | .goto_ x => [("GOTO", "goto"), ("ID", x), ("SEMI", ";")]
   | .label x s => ("ID", x) :: ("COLON", ":") :: s.flat
 def SL.flat : SL → List Tk
   | .nil => []
   | .cons s r => s.flat ++ r.flat
+  | .consD dc r => dc.flat ++ r.flat
 end
 
 
@@ -107,6 +115,7 @@ def S.val (n : Nat) : S → Val
   | .empty => mk .EmptyStatement (tc n) []
   | .block .nil => mk .Compound (tc n) [.none]
   | .block (.cons s r) => mk .Compound (tc n) [.list (SL.vals (n + 1) (.cons s r))]
+  | .block (.consD dc r) => mk .Compound (tc n) [.list (SL.vals (n + 1) (.consD dc r))]
   | .ifThen c t => mk .If (tc n) [c.val (n + 2), t.val (n + 2 + c.ntoks + 1), .none]
   | .ifElse c t f => mk .If (tc n) [c.val (n + 2), t.val (n + 2 + c.ntoks + 1),
       f.val (n + 2 + c.ntoks + 1 + t.ntoks + 1)]
@@ -121,11 +130,14 @@ def S.val (n : Nat) : S → Val
   | .switch_ c b => mk .Switch (tc n) [c.val (n + 2), Spec.switchBodyV (b.val (n + 2 + c.ntoks + 1))]
   | .for_ i c nx b => mk .For (tc n) [oval (n + 2) i, oval (n + 2 + ont i + 1) c, oval (n + 2 + ont i + 1 + ont c + 1) nx,
       b.val (n + 2 + ont i + 1 + ont c + 1 + ont nx + 1)]
+  | .forD dc c nx b => mk .For (tc n) [mk .DeclList (tc n) [.list (dc.vals (n + 2))], oval (n + 2 + dc.ntoks) c,
+      oval (n + 2 + dc.ntoks + ont c + 1) nx, b.val (n + 2 + dc.ntoks + ont c + 1 + ont nx + 1)]
   | .goto_ x => mk .Goto (tc n) [.str x]
   | .label x s => mk .Label (tc n) [.str x, s.val (n + 2)]
 def SL.vals (n : Nat) : SL → List Val
   | .nil => []
   | .cons s r => s.val n :: SL.vals (n + s.ntoks) r
+  | .consD dc r => dc.vals n ++ SL.vals (n + dc.ntoks) r
 end
 
 /-- the statement ends with an `if` that has no `else` (so a following `else` would attach to it) -/
@@ -137,33 +149,36 @@ def S.openIf : S → Bool
   | .default_ s => s.openIf
   | .switch_ _ b => b.openIf
   | .for_ _ _ _ b => b.openIf
+  | .forD _ _ _ b => b.openIf
   | .label _ s => s.openIf
   | _ => false
 
 mutual
 /-- well-formedness: expressions at the comma level; the `then` branch of an `if ... else` must not
 end with an `else`-less `if` (the grammar's resolution of the dangling else) -/
-inductive WFS : S → Prop
-  | expr (e) : WFX 0 e → WFS (.expr e)
-  | empty : WFS .empty
-  | block (items) : WFSL items → WFS (.block items)
-  | ifThen (c t) : WFX 0 c → WFS t → WFS (.ifThen c t)
-  | ifElse (c t f) : WFX 0 c → WFS t → t.openIf = false → WFS f → WFS (.ifElse c t f)
-  | while_ (c b) : WFX 0 c → WFS b → WFS (.while_ c b)
-  | doWhile (b c) : WFS b → WFX 0 c → WFS (.doWhile b c)
-  | retNone : WFS (.ret none)
-  | retSome (e) : WFX 0 e → WFS (.ret (some e))
-  | brk : WFS .brk
-  | cont : WFS .cont
-  | case_ (e s) : WFX 2 e → WFS s → WFS (.case_ e s)
-  | default_ (s) : WFS s → WFS (.default_ s)
-  | switch_ (c b) : WFX 0 c → WFS b → WFS (.switch_ c b)
-  | for_ (i c n b) : OWF i → OWF c → OWF n → WFS b → WFS (.for_ i c n b)
-  | goto_ (x) : WFS (.goto_ x)
-  | label (x s) : WFS s → WFS (.label x s)
-inductive WFSL : SL → Prop
-  | nil : WFSL .nil
-  | cons (s r) : WFS s → WFSL r → WFSL (.cons s r)
+inductive WFS (ty : String → Bool) : S → Prop
+  | expr (e) : WFX 0 e → WFS ty (.expr e)
+  | empty : WFS ty .empty
+  | block (items) : WFSL ty items → WFS ty (.block items)
+  | ifThen (c t) : WFX 0 c → WFS ty t → WFS ty (.ifThen c t)
+  | ifElse (c t f) : WFX 0 c → WFS ty t → t.openIf = false → WFS ty f → WFS ty (.ifElse c t f)
+  | while_ (c b) : WFX 0 c → WFS ty b → WFS ty (.while_ c b)
+  | doWhile (b c) : WFS ty b → WFX 0 c → WFS ty (.doWhile b c)
+  | retNone : WFS ty (.ret none)
+  | retSome (e) : WFX 0 e → WFS ty (.ret (some e))
+  | brk : WFS ty .brk
+  | cont : WFS ty .cont
+  | case_ (e s) : WFX 2 e → WFS ty s → WFS ty (.case_ e s)
+  | default_ (s) : WFS ty s → WFS ty (.default_ s)
+  | switch_ (c b) : WFX 0 c → WFS ty b → WFS ty (.switch_ c b)
+  | for_ (i c n b) : OWF i → OWF c → OWF n → WFS ty b → WFS ty (.for_ i c n b)
+  | forD (dc c n b) : WFDcl dc → (∀ x ∈ dc.names, ty x = false) → OWF c → OWF n → WFS ty b → WFS ty (.forD dc c n b)
+  | goto_ (x) : WFS ty (.goto_ x)
+  | label (x s) : WFS ty s → WFS ty (.label x s)
+inductive WFSL (ty : String → Bool) : SL → Prop
+  | nil : WFSL ty .nil
+  | cons (s r) : WFS ty s → WFSL ty r → WFSL ty (.cons s r)
+  | consD (dc r) : WFDcl dc → (∀ x ∈ dc.names, ty x = false) → WFSL ty r → WFSL ty (.consD dc r)
 end
 
 
@@ -280,17 +295,19 @@ def S.fuel : S → Nat
   | .default_ s => s.fuel + 4
   | .switch_ c b => c.fuel + b.fuel + 4
   | .for_ i c n b => ofuel i + ofuel c + ofuel n + b.fuel + 5
+  | .forD dc c n b => dc.fuel + ofuel c + ofuel n + b.fuel + 5
   | .goto_ _ => 3
   | .label _ s => s.fuel + 4
 def SL.fuel : SL → Nat
   | .nil => 1
   | .cons s r => s.fuel + r.fuel + 2
+  | .consD dc r => dc.fuel + r.fuel + 3
 end
 
 def stmtHeads : List String :=
   exprHeads ++ ["SEMI", "LBRACE", "IF", "WHILE", "DO", "RETURN", "BREAK", "CONTINUE", "CASE", "DEFAULT", "SWITCH", "FOR", "GOTO"]
 
-theorem S.head : ∀ st : S, WFS st → ∃ t r, st.flat = t :: r ∧ t.1 ∈ stmtHeads
+theorem S.head {ty : String → Bool} : ∀ st : S, WFS ty st → ∃ t r, st.flat = t :: r ∧ t.1 ∈ stmtHeads
   | .expr e, hw => by
     cases hw with
     | expr _ hwe =>
@@ -310,6 +327,7 @@ theorem S.head : ∀ st : S, WFS st → ∃ t r, st.flat = t :: r ∧ t.1 ∈ st
   | .default_ .., _ => ⟨_, _, rfl, by decide⟩
   | .switch_ .., _ => ⟨_, _, rfl, by decide⟩
   | .for_ .., _ => ⟨_, _, rfl, by decide⟩
+  | .forD .., _ => ⟨_, _, rfl, by decide⟩
   | .goto_ _, _ => ⟨_, _, rfl, by decide⟩
   | .label .., _ => ⟨_, _, rfl, (by decide : "ID" ∈ stmtHeads)⟩
 
@@ -343,11 +361,13 @@ theorem S.flat_length : ∀ st : S, st.flat.length = st.ntoks
   | .default_ st => by simp [S.flat, S.ntoks, S.flat_length st]; omega
   | .switch_ c b => by simp [S.flat, S.ntoks, FullExpr.flat_length, S.flat_length b]; omega
   | .for_ i c n b => by simp [S.flat, S.ntoks, oflat_length, S.flat_length b]; omega
+  | .forD dc c n b => by simp [S.flat, S.ntoks, oflat_length, S.flat_length b, Dcl.flat_length]; omega
   | .goto_ _ => rfl
   | .label _ st => by simp [S.flat, S.ntoks, S.flat_length st]; omega
 theorem SL.flat_length : ∀ l : SL, l.flat.length = l.ntoks
   | .nil => rfl
   | .cons s r => by simp [SL.flat, SL.ntoks, S.flat_length s, SL.flat_length r]
+  | .consD dc r => by simp [SL.flat, SL.ntoks, Dcl.flat_length, SL.flat_length r]
 end
 
 theorem S.val_node : ∀ (st : S) (n : Nat), ∃ c co fs, st.val n = .node c co fs
@@ -357,6 +377,8 @@ theorem S.val_node : ∀ (st : S) (n : Nat), ∃ c co fs, st.val n = .node c co 
   | .empty, _ => ⟨_, _, _, rfl⟩
   | .block .nil, _ => ⟨_, _, _, rfl⟩
   | .block (.cons _ _), _ => ⟨_, _, _, rfl⟩
+  | .block (.consD _ _), _ => ⟨_, _, _, rfl⟩
+  | .forD .., _ => ⟨_, _, _, rfl⟩
   | .ifThen .., _ => ⟨_, _, _, rfl⟩
   | .ifElse .., _ => ⟨_, _, _, rfl⟩
   | .while_ .., _ => ⟨_, _, _, rfl⟩
@@ -374,19 +396,19 @@ theorem S.val_node : ∀ (st : S) (n : Nat), ∃ c co fs, st.val n = .node c co 
 
 /-- what the theorem says about one statement -/
 def SOK (env : Env) (st : S) : Prop :=
-  ∀ (s : PState) (rest : List Tk) (F : Nat), WFS st → SeesT env s (st.flat ++ rest) →
+  ∀ (s : PState) (rest : List Tk) (F : Nat), WFS env.ty st → SeesT env s (st.flat ++ rest) →
     (st.openIf = true → ∀ k v r, rest = (k, v) :: r → k ≠ "ELSE") → st.fuel ≤ F →
     ∃ s', run F .statement s = .ok (st.val s.idx) s' ∧ SeesT env s' rest ∧ s'.idx = s.idx + st.ntoks
 
 /-- ... and about the items of a block, up to its closing brace -/
 def SLOK (env : Env) (l : SL) : Prop :=
-  ∀ (acc : List Val) (s : PState) (rest : List Tk) (F : Nat), WFSL l →
+  ∀ (acc : List Val) (s : PState) (rest : List Tk) (F : Nat), WFSL env.ty l →
     SeesT env s (l.flat ++ ("RBRACE", "}") :: rest) → l.fuel ≤ F →
     ∃ s', run F (.blockItemListLoop acc) s = .ok (acc ++ SL.vals s.idx l) s' ∧
       SeesT env s' (("RBRACE", "}") :: rest) ∧ s'.idx = s.idx + l.ntoks
 
 /-- a statement used as the body of `if` / `else` / a loop -/
-theorem body_ok (st : S) (h : SOK env st) (s : PState) (rest : List Tk) (F : Nat) (hwf : WFS st)
+theorem body_ok (st : S) (h : SOK env st) (s : PState) (rest : List Tk) (F : Nat) (hwf : WFS env.ty st)
     (hs : SeesT env s (st.flat ++ rest)) (hel : st.openIf = true → ∀ k v r, rest = (k, v) :: r → k ≠ "ELSE")
     (hF : st.fuel + 1 ≤ F) :
     ∃ s', run F .pragmacompOrStatement s = .ok (st.val s.idx) s' ∧ SeesT env s' rest ∧ s'.idx = s.idx + st.ntoks := by
@@ -684,7 +706,7 @@ theorem sok_doWhile (b : S) (c : X) (ihb : SOK env b) : SOK env (.doWhile b c) :
     simp [pIterationStatement, bnd, h2, h3, h4, h5, h6, h7, h8, pur, tokCoord, tc, hi1, S.val]
 
 
-theorem SL.head_not_else (l : SL) (hwl : WFSL l) (rest : List Tk) :
+theorem SL.head_not_else (l : SL) (hwl : WFSL env.ty l) (rest : List Tk) :
     ∀ k v r, l.flat ++ ("RBRACE", "}") :: rest = (k, v) :: r → k ≠ "ELSE" := by
   intro k v r h
   cases hwl with
@@ -694,6 +716,10 @@ theorem SL.head_not_else (l : SL) (hwl : WFSL l) (rest : List Tk) :
     simp only [SL.flat, hfl, List.cons_append, List.append_assoc, List.cons.injEq] at h
     have := (stmtHeads_facts t.1 hth).2.2.1
     rw [h.1] at this; exact this
+  | consD dc l' hwd _ _ =>
+    obtain ⟨t, r', hfl, _, hne, _⟩ := Dcl.head hwd
+    simp only [SL.flat, hfl, List.cons_append, List.cons.injEq] at h
+    rw [h.1] at hne; exact hne
 
 theorem slok_nil : SLOK env .nil := by
   intro acc s rest F _ hs hF
@@ -730,6 +756,30 @@ theorem slok_cons (st : S) (r : SL) (ihs : SOK env st) (ihr : SLOK env r) : SLOK
     show pBlockItemListLoop (run G) acc s = _
     simp [pBlockItemListLoop, bnd, h1, h2, startsDeclaration, pur, hnd, hnr, h3, h4, SL.vals, hv']
 
+theorem slok_consD (dc : Dcl) (r : SL) (ihr : SLOK env r) : SLOK env (.consD dc r) := by
+  intro acc s rest F hwf hs hF
+  cases hwf with
+  | consD _ _ hwd hty hwr =>
+    obtain ⟨G, rfl⟩ : ∃ G, F = G + 1 := ⟨F - 1, by simp only [SL.fuel] at hF; omega⟩
+    simp only [SL.fuel] at hF
+    obtain ⟨t, r', hfl, hds, _, hnr⟩ := Dcl.head hwd
+    have hs0 : SeesT env s (dc.flat ++ (r.flat ++ ("RBRACE", "}") :: rest)) := by
+      simpa [SL.flat, List.append_assoc] using hs
+    have hs0' : SeesT env s ((t.1, t.2) :: (r' ++ (r.flat ++ ("RBRACE", "}") :: rest))) := by simpa [hfl] using hs0
+    obtain ⟨s1, h1, hs1, hi1, _⟩ := peekType_spec s _ hs0'
+    obtain ⟨s2, h2, hs2, hi2, _⟩ := peekType_spec s1 _ hs1
+    have hs2' : SeesT env s2 (dc.flat ++ (r.flat ++ ("RBRACE", "}") :: rest)) := by simpa [hfl] using hs2
+    obtain ⟨s3, h3, hs3, hi3⟩ := parse_declaration dc hwd hty s2 _ hs2' G (by omega)
+    obtain ⟨s4, h4, hs4, hi4⟩ := ihr (acc ++ dc.vals s2.idx) s3 rest G hwr hs3 (by omega)
+    refine ⟨s4, ?_, hs4, by simp only [SL.ntoks]; omega⟩
+    have e2 : s2.idx = s.idx := by omega
+    have e3 : s3.idx = s.idx + dc.ntoks := by omega
+    rw [e3] at h4
+    rw [e2] at h3 h4
+    have hin : inSet (some t.1) declStart = true := DeclSkel.mem_inSet hds
+    show pBlockItemListLoop (run G) acc s = _
+    simp [pBlockItemListLoop, bnd, h1, h2, startsDeclaration, pur, hin, hnr, h3, h4, SL.vals]
+
 theorem sok_block (items : SL) (ih : SLOK env items) : SOK env (.block items) := by
   intro s rest F hwf hs _ hF
   cases hwf with
@@ -750,9 +800,23 @@ theorem sok_block (items : SL) (ih : SLOK env items) : SOK env (.block items) :=
       show pCompoundStatement (run G) s1 = _
       simp [pCompoundStatement, bnd, h2, h3, pur, tokCoord, tc, hi1, S.val]
     | cons st r =>
-      have hws : WFS st := by cases hwi with | cons _ _ h _ => exact h
+      have hws : WFS env.ty st := by cases hwi with | cons _ _ h _ => exact h
       obtain ⟨t, r', hfl, hth⟩ := S.head st hws
       have hnr := (stmtHeads_facts t.1 hth).2.2.2.1
+      obtain ⟨s3, h3, hs3, hi3⟩ := accept_other s2 _ "RBRACE" hs2 (by
+        intro k v r'' h
+        simp only [SL.flat, hfl, List.cons_append, List.append_assoc, List.cons.injEq] at h
+        rw [h.1] at hnr; exact hnr)
+      obtain ⟨s4, h4, hs4, hi4⟩ := ih [] s3 rest G hwi hs3 (by omega)
+      obtain ⟨s5, h5, hs5, hi5⟩ := expect_same s4 "RBRACE" "}" rest hs4
+      refine ⟨s5, ?_, hs5, by simp only [S.ntoks]; omega⟩
+      have e3 : s3.idx = s.idx + 1 := by omega
+      rw [e3] at h4
+      show pCompoundStatement (run G) s1 = _
+      simp [pCompoundStatement, bnd, h2, h3, h4, h5, pur, tokCoord, tc, hi1, S.val]
+    | consD dc r =>
+      have hwd : WFDcl dc := by cases hwi with | consD _ _ h _ _ => exact h
+      obtain ⟨t, r', hfl, _, _, hnr⟩ := Dcl.head hwd
       obtain ⟨s3, h3, hs3, hi3⟩ := accept_other s2 _ "RBRACE" hs2 (by
         intro k v r'' h
         simp only [SL.flat, hfl, List.cons_append, List.append_assoc, List.cons.injEq] at h
@@ -777,7 +841,7 @@ theorem stmt_label_head (F : Nat) (s : PState) (k v : String) (toks : List Tk) (
   rcases hk with rfl | rfl <;> simp [pStatement, bnd, h1]
 
 /-- the statement after a label -/
-theorem label_body (st : S) (h : SOK env st) (tok : PTok) (s : PState) (rest : List Tk) (F : Nat) (hwf : WFS st)
+theorem label_body (st : S) (h : SOK env st) (tok : PTok) (s : PState) (rest : List Tk) (F : Nat) (hwf : WFS env.ty st)
     (hs : SeesT env s (st.flat ++ rest)) (hel : st.openIf = true → ∀ k v r, rest = (k, v) :: r → k ≠ "ELSE")
     (hF : st.fuel + 1 ≤ F) :
     ∃ s', labelBody (run F) tok s = .ok (st.val s.idx) s' ∧ SeesT env s' rest ∧ s'.idx = s.idx + st.ntoks := by
@@ -863,6 +927,8 @@ theorem sval_shape : ∀ (st : S) (n : Nat), isLabelV (st.val n) = true → ∃ 
   | .empty, _, h => by cases h
   | .block .nil, _, h => by cases h
   | .block (.cons _ _), _, h => by cases h
+  | .block (.consD _ _), _, h => by cases h
+  | .forD .., _, h => by cases h
   | .ifThen .., _, h => by cases h
   | .ifElse .., _, h => by cases h
   | .while_ .., _, h => by cases h
@@ -897,6 +963,13 @@ theorem svals_shaped : ∀ (l : SL) (n : Nat), ParserShaped (SL.vals n l)
     rcases hv with rfl | hv
     · exact sval_shape st n hl
     · exact svals_shaped r _ v hv hl
+  | .consD dc r, n => by
+    intro v hv hl
+    simp only [SL.vals, List.mem_append] at hv
+    rcases hv with hv | hv
+    · obtain ⟨co, fs, rfl⟩ := Dcl.vals_decl dc n v hv
+      cases hl
+    · exact svals_shaped r _ v hv hl
 
 theorem xval_not_compound (e : X) : ∀ n : Nat, (e.val n).isCls .Compound = false := by
   induction e with
@@ -912,6 +985,7 @@ theorem fixSwitch_sval (co : Option Coord) (cond : Val) (b : S) (n : Nat) (s : P
     cases items with
     | nil => exact fixSwitch_empty co _ cond s
     | cons st r => exact fixSwitch_block co _ cond _ (svals_shaped (.cons st r) _) s
+    | consD dc r => exact fixSwitch_block co _ cond _ (svals_shaped (.consD dc r) _) s
   | expr e => exact fixSwitch_other co cond _ (xval_not_compound e n) s
   | ret e => cases e <;> exact fixSwitch_other co cond _ rfl s
   | empty => exact fixSwitch_other co cond _ rfl s
@@ -925,6 +999,7 @@ theorem fixSwitch_sval (co : Option Coord) (cond : Val) (b : S) (n : Nat) (s : P
   | default_ _ => exact fixSwitch_other co cond _ rfl s
   | switch_ _ _ => exact fixSwitch_other co cond _ rfl s
   | for_ _ _ _ _ => exact fixSwitch_other co cond _ rfl s
+  | forD _ _ _ _ => exact fixSwitch_other co cond _ rfl s
   | goto_ _ => exact fixSwitch_other co cond _ rfl s
   | label _ _ => exact fixSwitch_other co cond _ rfl s
 
@@ -1028,6 +1103,41 @@ theorem sok_for (i c n : Option X) (b : S) (ihb : SOK env b) : SOK env (.for_ i 
     simp [pIterationStatement, bnd, h2, h3, startsDeclaration, h4, hnd, h5, h6, h7, h8, h9, h10, h11, pur, tokCoord, tc,
       hi1, S.val]
 
+theorem sok_forD (dc : Dcl) (c n : Option X) (b : S) (ihb : SOK env b) : SOK env (.forD dc c n b) := by
+  intro s rest F hwf hs hel hF
+  cases hwf with
+  | forD _ _ _ _ hwd hty hwc hwn hwb =>
+    obtain ⟨G, rfl⟩ : ∃ G, F = G + 2 := ⟨F - 2, by simp only [S.fuel] at hF; omega⟩
+    simp only [S.fuel] at hF
+    have hs0 : SeesT env s (("FOR", "for") :: ("LPAREN", "(") :: (dc.flat ++ (oflat c ++ ("SEMI", ";") ::
+        (oflat n ++ ("RPAREN", ")") :: (b.flat ++ rest))))) := by
+      simpa [S.flat, List.append_assoc] using hs
+    obtain ⟨s1, hs1, hi1, heq⟩ := stmt_head (G + 1) s "FOR" "for" _ hs0 ⟨by decide, by decide, by decide⟩
+    obtain ⟨s2, h2, hs2, _, hi2, _⟩ := advance_spec s1 "FOR" "for" _ hs1
+    obtain ⟨s3, h3, hs3, hi3⟩ := expect_same s2 "LPAREN" "(" _ hs2
+    obtain ⟨t, r, hfl, hds, _, _⟩ := Dcl.head hwd
+    rw [hfl] at hs3
+    obtain ⟨s4, h4, hs4, hi4, _⟩ := peekType_spec s3 _ hs3
+    rw [← hfl] at hs4
+    obtain ⟨s5, h5, hs5, hi5⟩ := parse_declaration dc hwd hty s4 _ hs4 G (by omega)
+    obtain ⟨s7, h7, hs7, hi7⟩ := exprOpt_ok c hwc s5 ("SEMI", ";") _ (.inl rfl) hs5 G (by omega)
+    obtain ⟨s8, h8, hs8, hi8⟩ := expect_same s7 "SEMI" ";" _ hs7
+    obtain ⟨s9, h9, hs9, hi9⟩ := exprOpt_ok n hwn s8 ("RPAREN", ")") _ (.inr rfl) hs8 G (by omega)
+    obtain ⟨s10, h10, hs10, hi10⟩ := expect_same s9 "RPAREN" ")" _ hs9
+    obtain ⟨s11, h11, hs11, hi11⟩ := body_ok b ihb s10 rest G hwb hs10 (fun ho => hel (by simpa [S.openIf] using ho)) (by omega)
+    refine ⟨s11, ?_, hs11, by simp only [S.ntoks]; omega⟩
+    have e4 : s4.idx = s.idx + 2 := by omega
+    have e5 : s5.idx = s.idx + 2 + dc.ntoks := by omega
+    have e8 : s8.idx = s.idx + 2 + dc.ntoks + ont c + 1 := by omega
+    have e10 : s10.idx = s.idx + 2 + dc.ntoks + ont c + 1 + ont n + 1 := by omega
+    rw [e4] at h5; rw [e5] at h7; rw [e8] at h9; rw [e10] at h11
+    have hin : inSet (some t.1) declStart = true := DeclSkel.mem_inSet hds
+    rw [heq]
+    simp [inSet]
+    show pIterationStatement (run G) s1 = _
+    simp [pIterationStatement, bnd, h2, h3, startsDeclaration, h4, hin, h5, h7, h8, h9, h10, h11, pur, tokCoord, tc,
+      hi1, S.val]
+
 theorem sok_goto (x : String) : SOK env (.goto_ x) := by
   intro s rest F _ hs _ hF
   obtain ⟨G, rfl⟩ : ∃ G, F = G + 2 := ⟨F - 2, by simp only [S.fuel] at hF; omega⟩
@@ -1093,60 +1203,22 @@ theorem all_s : ∀ st : S, SOK env st
   | .default_ st => sok_default st (all_s st)
   | .switch_ c b => sok_switch c b (all_s b)
   | .for_ i c n b => sok_for i c n b (all_s b)
+  | .forD dc c n b => sok_forD dc c n b (all_s b)
   | .goto_ x => sok_goto x
   | .label x st => sok_label x st (all_s st)
 theorem all_sl : ∀ l : SL, SLOK env l
   | .nil => slok_nil
   | .cons st r => slok_cons st r (all_s st) (all_sl r)
+  | .consD dc r => slok_consD dc r (all_sl r)
 end
 
 /-- **Statements nest exactly as the C grammar says.** For every statement `st` of `S` (any size,
 any nesting), from every parser state that sees its tokens (followed, if `st` ends with an
 `else`-less `if`, by something other than `else`), `_parse_statement` returns `st.val` and consumes
 exactly the tokens of `st`. -/
-theorem parse_stmt (st : S) (hwf : WFS st) (s : PState) (rest : List Tk) (hs : SeesT env s (st.flat ++ rest))
+theorem parse_stmt (st : S) (hwf : WFS env.ty st) (s : PState) (rest : List Tk) (hs : SeesT env s (st.flat ++ rest))
     (hel : st.openIf = true → ∀ k v r, rest = (k, v) :: r → k ≠ "ELSE") (F : Nat) (hF : st.fuel ≤ F) :
     ∃ s', run F .statement s = .ok (st.val s.idx) s' ∧ SeesT env s' rest ∧ s'.idx = s.idx + st.ntoks :=
   all_s st s rest F hwf hs hel hF
-
-theorem ofuel_linear (o : Option X) : ofuel o ≤ 13 * ont o := by
-  cases o with
-  | none => simp [ofuel, ont]
-  | some e => exact FullExpr.fuel_linear e
-
-mutual
-/-- the fuel the theorem asks for is linear in the number of tokens -/
-theorem S.fuel_linear : ∀ st : S, st.fuel + 2 ≤ 13 * st.ntoks
-  | .expr e => by have := FullExpr.fuel_linear e; simp only [S.fuel, S.ntoks]; omega
-  | .empty => by simp [S.fuel, S.ntoks]
-  | .block items => by have := SL.fuel_linear items; simp only [S.fuel, S.ntoks]; omega
-  | .ifThen c t => by
-    have := FullExpr.fuel_linear c; have := S.fuel_linear t; simp only [S.fuel, S.ntoks]; omega
-  | .ifElse c t f => by
-    have := FullExpr.fuel_linear c; have := S.fuel_linear t; have := S.fuel_linear f
-    simp only [S.fuel, S.ntoks]; omega
-  | .while_ c b => by
-    have := FullExpr.fuel_linear c; have := S.fuel_linear b; simp only [S.fuel, S.ntoks]; omega
-  | .doWhile b c => by
-    have := FullExpr.fuel_linear c; have := S.fuel_linear b; simp only [S.fuel, S.ntoks]; omega
-  | .ret none => by simp [S.fuel, S.ntoks]
-  | .ret (some e) => by have := FullExpr.fuel_linear e; simp only [S.fuel, S.ntoks]; omega
-  | .brk => by simp [S.fuel, S.ntoks]
-  | .cont => by simp [S.fuel, S.ntoks]
-  | .case_ e st => by
-    have := FullExpr.fuel_linear e; have := S.fuel_linear st; simp only [S.fuel, S.ntoks]; omega
-  | .default_ st => by have := S.fuel_linear st; simp only [S.fuel, S.ntoks]; omega
-  | .switch_ c b => by
-    have := FullExpr.fuel_linear c; have := S.fuel_linear b; simp only [S.fuel, S.ntoks]; omega
-  | .for_ i c n b => by
-    have := ofuel_linear i; have := ofuel_linear c; have := ofuel_linear n; have := S.fuel_linear b
-    simp only [S.fuel, S.ntoks]; omega
-  | .goto_ _ => by simp [S.fuel, S.ntoks]
-  | .label _ st => by have := S.fuel_linear st; simp only [S.fuel, S.ntoks]; omega
-theorem SL.fuel_linear : ∀ l : SL, l.fuel ≤ 13 * l.ntoks + 1
-  | .nil => by simp [SL.fuel, SL.ntoks]
-  | .cons st r => by
-    have := S.fuel_linear st; have := SL.fuel_linear r; simp only [SL.fuel, SL.ntoks]; omega
-end
 
 end PycModel.StmtSkel
